@@ -185,9 +185,15 @@ def run(ctx):
                     pitch=int(rng.integers(1, 17)), zetas=[float(v) for v in 0.2 + 0.8 * rng.random(K + 4)])
         if i % 4 == 1 and cls != "AdiabaticMD":
             spec["rho"] = "mixed"
+        if i % 3 == 2:
+            # a time step that is not exactly representable (0.5 fs = 20.67 a.u. and the like): the logged clock is an accumulated
+            # sum, so anything that counts steps by dividing times has to get the rounding right; longer runs, many restart points
+            spec["dt"] = float(rng.choice([20.67, 0.1, 4.7, 1.0 / 3.0]))
+            spec["K"] = K = int(rng.integers(20, 46))
+            spec["zetas"] = [float(v) for v in 0.2 + 0.8 * rng.random(K + 4)]
         if i % 6 == 5:
             spec.update(builtin=str(rng.choice(["simple", "dual", "extended"])), x0=-3.0, p0=float(rng.uniform(8, 20)))
-        ks = range(1, K) if ctx.thorough() else sorted(set(int(v) for v in rng.integers(1, K, size=3)))
+        ks = range(1, K) if ctx.thorough() else sorted(set(int(v) for v in rng.integers(1, K, size=3 if K < 20 else 8)))
         for k in ks:
             a = dict(spec, k=int(k))
             ok, obs, req, text = oracle_restart(a)
